@@ -92,7 +92,7 @@ Proof.
     { intros m3 d3 r3 H3 -> ->. destruct (IH _ _ _ _ _ I2 G' H3 x v' Hin) as [Hd|[p [Hp [Ex Sp]]]].
       - left; exact Hd.
       - right. exists p. split; [right; exact Hp | split; assumption]. }
-    destruct ((negb ic && is_formal_attr k')%bool).
+    destruct ((negb (ic && is_prov_name "entity" k') && is_formal_attr k')%bool).
     + destruct (attr_get k' d) as [|e0 rest0].
       * destruct (add_attrs_loop c ic m2 (attr_add k' v2 d) (map sp_arg pairs)) as [[m3 d3] r3] eqn:H3.
         inversion H; subst. eapply ADDED; eauto.
@@ -120,7 +120,7 @@ Proof.
       assert (ADD : In w (attr_get x (attr_add attr v d))).
       { rewrite attr_get_add. destruct (qn_eqb x attr) eqn:EX; [|exact Hw].
         apply in_set_add. left. rewrite <- (attr_get_eqb d x attr EX). exact Hw. }
-      destruct ((negb ic && is_formal_attr attr)%bool).
+      destruct ((negb (ic && is_prov_name "entity" attr) && is_formal_attr attr)%bool).
       * destruct (attr_get attr d) as [|e0 rest0].
         -- eapply IH; [exact H | exact ADD].
         -- destruct (py_eq v e0); [eapply IH; eauto | inversion H; subst; exact Hw].
@@ -164,7 +164,7 @@ Proof.
   destruct Hp as [<-|Hp]; cbn [fst snd].
   - (* the head pair *)
     exists v2.
-    destruct ((negb ic && is_formal_attr k')%bool).
+    destruct ((negb (ic && is_prov_name "entity" k') && is_formal_attr k')%bool).
     + destruct (attr_get k' d) as [|e0 rest0] eqn:EG.
       * destruct (HEAD_ADDED _ _ H) as [w [Hw Cw]]. exists w. split; [exact SV | split; assumption].
       * destruct (py_eq v2 e0) eqn:EP; [|discriminate].
@@ -173,7 +173,7 @@ Proof.
         -- right; right; exact EP.
     + destruct (HEAD_ADDED _ _ H) as [w [Hw Cw]]. exists w. split; [exact SV | split; assumption].
   - (* a later pair *)
-    destruct ((negb ic && is_formal_attr k')%bool).
+    destruct ((negb (ic && is_prov_name "entity" k') && is_formal_attr k')%bool).
     + destruct (attr_get k' d) as [|e0 rest0].
       * exact (IH _ _ _ _ I2 G' H p Hp).
       * destruct (py_eq v2 e0); [exact (IH _ _ _ _ I2 G' H p Hp) | discriminate].
@@ -359,7 +359,7 @@ Proof.
     destruct (resolve_o c m n) as [m1 [attr|]|m1 e|]; try reflexivity.
     destruct (if is_qname_attr attr then qn_value c m1 a else if is_time_attr attr then time_value m1 a else auto_conv c m1 a)
       as [m2 [v|]|m2 e2|]; try reflexivity.
-    destruct ((negb ic && is_formal_attr attr)%bool).
+    destruct ((negb (ic && is_prov_name "entity" attr) && is_formal_attr attr)%bool).
     + destruct (attr_get attr d); [apply IH|]. destruct (py_eq v v0); [apply IH | reflexivity].
     + apply IH.
 Qed.
